@@ -70,14 +70,17 @@ fn install_hook() {
     }));
 }
 
+thread_local! { static OUT_BYTES: std::cell::Cell<usize> = const { std::cell::Cell::new(0) }; }
+
 fn run_one<B: Backend + Default>(text: &str) -> Value {
     let mut step = "compile";
     let r = catch_unwind(AssertUnwindSafe(|| {
         let res = Compiler::<B, _>::new().add_asn_literal(text.to_string()).compile_to_string();
-        let (verdict, errs): (&str, Vec<CompilerError>) = match res {
-            Ok(r) => ("ok", r.warnings),
-            Err(e) => ("err", vec![e]),
+        let (verdict, errs, n): (&str, Vec<CompilerError>, usize) = match res {
+            Ok(r) => ("ok", r.warnings, r.generated.len()),
+            Err(e) => ("err", vec![e], 0),
         };
+        OUT_BYTES.with(|o| o.set(n));
         (verdict, errs)
     }));
     let (verdict, errs) = match r {
@@ -92,7 +95,7 @@ fn run_one<B: Backend + Default>(text: &str) -> Value {
     if catch_unwind(AssertUnwindSafe(|| errs.iter().map(|e| e.contextualize(text).len()).sum::<usize>())).is_err() {
         return json!({"outcome": "panicked", "at": step, "site": SITE.with(|s| s.borrow().clone())});
     }
-    json!({"outcome": verdict, "at": "", "site": "", "messages": errs.len()})
+    json!({"outcome": verdict, "at": "", "site": "", "messages": errs.len(), "out_bytes": OUT_BYTES.with(|o| o.get())})
 }
 
 /// vharness c08worker : jobs on stdin (one JSON per line), `START <id>` / `DONE <json>` on stdout
@@ -111,6 +114,12 @@ pub fn worker(_args: &[String]) -> i32 {
         }
         let text = job["text"].as_str().unwrap_or("").to_string();
         let ts = job["backend"] == "typescript";
+        // the formatting step: with CARGO_HOME set the rasn backend finds rustfmt and pipes the bindings through it, as it does
+        // in a build script; without, the step is skipped (no job thread is running while the environment is changed)
+        match job["fmt_home"].as_str() {
+            Some(h) if !h.is_empty() => std::env::set_var("CARGO_HOME", h),
+            _ => std::env::remove_var("CARGO_HOME"),
+        }
         // the stack of a main thread: what a build script or a command-line tool runs on
         let res = std::thread::Builder::new().stack_size(8 * 1024 * 1024).spawn(move || {
             if ts { run_one::<TypescriptBackend>(&text) } else { run_one::<RasnBackend>(&text) }
@@ -222,11 +231,15 @@ struct Job {
     what: String,
     backend: &'static str,
     text: String,
+    /// run with rustfmt reachable (the formatting step of the rasn backend)
+    fmt: bool,
+    /// the size of output the job is meant to reach (0: none in particular)
+    want_bytes: usize,
 }
 
 // ------------------------------------------------------------------------------ the supervisor
 
-fn supervise(jobs: &[Job], timeout: Duration, nworkers: usize) -> Vec<Value> {
+fn supervise(jobs: &[Job], timeout: Duration, nworkers: usize, fmt_home: &str) -> Vec<Value> {
     let me = std::env::current_exe().unwrap();
     let next = AtomicUsize::new(0);
     let results: Mutex<Vec<(usize, Value)>> = Mutex::new(vec![]);
@@ -254,7 +267,7 @@ fn supervise(jobs: &[Job], timeout: Duration, nworkers: usize) -> Vec<Value> {
                             let _ = reader.join();
                             break 'outer;
                         }
-                        let line = serde_json::to_string(&json!({"id": i, "text": jobs[i].text, "backend": jobs[i].backend})).unwrap();
+                        let line = serde_json::to_string(&json!({"id": i, "text": jobs[i].text, "backend": jobs[i].backend, "fmt_home": if jobs[i].fmt { fmt_home } else { "" }})).unwrap();
                         let sent = writeln!(stdin, "{line}").and_then(|_| stdin.flush()).is_ok();
                         let started = Instant::now();
                         let mut outcome: Option<Value> = None;
@@ -302,6 +315,7 @@ fn supervise(jobs: &[Job], timeout: Duration, nworkers: usize) -> Vec<Value> {
     r.into_iter().map(|(i, res)| {
         let j = &jobs[i];
         json!({"ev": "total", "case": i, "kind": j.kind, "class": j.class, "what": j.what, "backend": j.backend, "outcome": res["outcome"], "at": res["at"], "site": res["site"],
+               "fmt": j.fmt, "want_bytes": j.want_bytes, "out_bytes": res["out_bytes"].as_u64().unwrap_or(0),
                "bytes": j.text.len(), "asn": j.text.chars().take(700).collect::<String>(), "text": if res["outcome"] == "ok" || res["outcome"] == "err" { json!("") } else { json!(j.text) }})
     }).collect()
 }
@@ -335,9 +349,9 @@ pub fn drive(args: &[String]) -> i32 {
             k => k.to_string(),
         };
         if ts_too {
-            jobs.push(Job { kind, class: class.clone(), what: what.clone(), backend: "typescript", text: text.clone() });
+            jobs.push(Job { kind, class: class.clone(), what: what.clone(), backend: "typescript", text: text.clone(), fmt: false, want_bytes: 0 });
         }
-        jobs.push(Job { kind, class, what, backend: "rasn", text });
+        jobs.push(Job { kind, class, what, backend: "rasn", text, fmt: false, want_bytes: 0 });
     };
     // 1. the seeds as they are (every corpus module in the larger scale, a rotating sample otherwise)
     let ncorpus = if scale >= 4 { corpus.len() } else { 40 * scale };
@@ -371,7 +385,8 @@ pub fn drive(args: &[String]) -> i32 {
         let toks = tokenize(sn);
         for (ti, t) in toks.iter().enumerate() {
             both(&mut jobs, "snipedit", format!("snippet {si} without token {ti}"), format!("{}{}", &sn[..t.start], &sn[t.end..]), false);
-            for mat in ["\"\"", "MIN", "MAX", "...", "}", "(", "0", "Zork", "zork", "''B"] {
+            for mat in ["\"\"", "MIN", "MAX", "...", "}", "(", "0", "Zork", "zork", "''B", "170141183460469231731687303715884105727", "-170141183460469231731687303715884105728",
+                        "CONTAINING INTEGER", "SIZE", "FROM"] {
                 both(&mut jobs, "snipedit", format!("snippet {si} token {ti} replaced by {mat}"), format!("{}{mat}{}", &sn[..t.start], &sn[t.end..]), false);
             }
         }
@@ -416,8 +431,30 @@ pub fn drive(args: &[String]) -> i32 {
     for (ci, c) in cycles.iter().enumerate() {
         both(&mut jobs, "cycle", format!("{} -> {} entry {}", c["kinds"], c["tgt"], c["entry"]), cycle_module(c), ci % 6 == 0);
     }
+    // 6. the formatting step (spec/FmtPipe.tla): outputs below, at and above the pipe capacity, and seeds as a build script sees them
+    let fmt_home = util::arg(args, "--rustfmt-home").unwrap_or("").to_string();
+    if !fmt_home.is_empty() {
+        let fmt_plans = util::arg(args, "--fmt-plans").map(util::read_ndjson).unwrap_or_default();
+        for p in &fmt_plans {
+            // the plan gives the output size in quarters of the pipe capacity (64 KiB on Linux)
+            let want = p["quarters"].as_u64().unwrap_or(1) as usize * 16 * 1024;
+            for (shape, per_type) in [("SEQUENCE { a INTEGER (0..255), b BOOLEAN OPTIONAL, c IA5String (SIZE (1..8)) }", 380usize), ("INTEGER (0..7)", 135)] {
+                let n = want / per_type + 8;
+                let body: String = (0..n).map(|i| format!("Fm{i}x ::= {shape}\n")).collect();
+                jobs.push(Job { kind: "fmtsize", class: "fmtsize".into(), what: format!("{} quarters of the pipe capacity, {n} x {shape}", p["quarters"]), backend: "rasn",
+                                text: format!("Fmt DEFINITIONS AUTOMATIC TAGS ::= BEGIN\n{body}END\n"), fmt: true, want_bytes: want });
+            }
+        }
+        for k in 0..(12 * scale).min(corpus.len()) {
+            let (name, text) = &corpus[(k * 53 + 11 + seed as usize) % corpus.len()];
+            jobs.push(Job { kind: "seed", class: "seed".into(), what: format!("{name} with rustfmt"), backend: "rasn", text: text.clone(), fmt: true, want_bytes: 0 });
+        }
+        for (i, g) in generated.iter().enumerate().take(10 * scale) {
+            jobs.push(Job { kind: "seed", class: "seed".into(), what: format!("generated {i} with rustfmt"), backend: "rasn", text: g.clone(), fmt: true, want_bytes: 0 });
+        }
+    }
     let t = Instant::now();
-    let events = supervise(&jobs, timeout, util::threads());
+    let events = supervise(&jobs, timeout, util::threads(), &fmt_home);
     util::write_ndjson(util::arg(args, "--trace").expect("--trace"), &events);
     eprintln!("c08: {} jobs in {:.1}s ({} corpus modules, {} generated, {} snippets, {} plans, {} cycle topologies)", jobs.len(), t.elapsed().as_secs_f64(),
               corpus.len(), generated.len(), snippets.len(), plans.len(), cycles.len());
